@@ -59,6 +59,17 @@ class SolutionHistory(Stream):
                     case["inputs"][0].append(n)
                 case["release"] = [t] + [x for x in case["release"] if x not in (t, n)][:1]
         case["layout"] = rng.choice([[], [], ["--hashes"], ["--multiline"]])
+        if rng.random() < 0.5:
+            # several input files, the same base name in different directories; one of them bounds a project more tightly
+            multi = [n for n in names if len(case["universe"][n]) >= 2]
+            if multi:
+                n = rng.choice(multi)
+                vs = sorted(case["universe"][n], key=GL.V)
+                tight = [rng.choice(SS.SPELL[n]) + rng.choice(["<" + vs[-1], "<=" + vs[0], "!=" + vs[-1]])]
+                loose = [rng.choice(SS.SPELL[n]) + rng.choice(["", ">=" + vs[0]])]
+                extra_files = [tight, loose] if rng.random() < 0.5 else [loose, tight]
+                case["inputs"] = (extra_files + case["inputs"])[:3] if rng.random() < 0.5 else (case["inputs"] + extra_files)[-3:]
+            case["same_basename"] = len(case["inputs"]) > 1
         if rng.random() < 0.4:
             # a long description with change-log headings: "Version: ..." lines that are not the Version header
             n = rng.choice(names)
@@ -83,7 +94,16 @@ class SolutionHistory(Stream):
         shutil.rmtree(d, ignore_errors=True)
         os.makedirs(d)
         materialise(case, d)
-        files = write_inputs(d, case["inputs"])
+        if case.get("same_basename"):
+            # the input files of one compile live in different directories under one name (services/a/requirements.txt ...)
+            files = []
+            for i, rs in enumerate(case["inputs"]):
+                os.makedirs(os.path.join(d, "part%d" % i), exist_ok=True)
+                with open(os.path.join(d, "part%d" % i, "requirements.txt"), "w") as f:
+                    f.write("\n".join(rs) + "\n")
+                files.append(os.path.join("part%d" % i, "requirements.txt"))
+        else:
+            files = write_inputs(d, case["inputs"])
         out = {}
         with SS.observed_region() as region:
             first = run_cli(d, files, extra=case["layout"])
@@ -99,8 +119,24 @@ class SolutionHistory(Stream):
                 out["second"] = {"code": second["code"], "exception": second["exception"], "pins": self._pins(second["stdout"]),
                                  "stderr_tail": second["stderr"][-300:]}
             out["region"] = region()
+        if out["region"] == "edge-label-overwritten" and not self._split_requirements(case):
+            # the recorded finding D3 needs a requirer with several requirement entries on one project; a label that is
+            # overwritten without one is not that finding
+            out["region"] = "clean"
         shutil.rmtree(d, ignore_errors=True)
         return out
+
+    @staticmethod
+    def _split_requirements(case):
+        groups = [rs for vs in case["universe"].values() for rs in vs.values()] + list(case["inputs"])
+        for rs in groups:
+            seen = {}
+            for t in rs:
+                q = GL.P(t)
+                seen.setdefault(GL.norm(q.name), []).append(str(q.marker))
+            if any(len(set(ms)) > 1 for ms in seen.values()):
+                return True
+        return False
 
     def flags(self, case, r):
         fl = ["first-exit:%s" % r["first"]["code"], "region:" + r["region"]]
